@@ -18,6 +18,8 @@ fn cfgs() -> Vec<Entry> {
     c!(v, true,"grid",W8D,StackN<1, 7>,dyn Cloneable);
     c!(v, true,"grid",W8D,StackN<1, 8>,dyn Cloneable);
     c!(v, true,"grid",W8D,StackN<3, 23>,dyn Cloneable);
+    c!(v, true,"grid",W8D,StackN<2, 19>,dyn Cloneable);
+    c!(v, true,"grid",B1D,StackN<2, 5>,dyn Cloneable);
     c!(v, true,"grid",B1D,Stack<0>,dyn Cloneable);
     c!(v, true,"grid",B1D,Stack<1>,dyn Cloneable);
     c!(v, true,"grid",B1D,StackN<0, 0>,dyn Cloneable);
